@@ -56,7 +56,7 @@ $J l2a --tier "$tier" --seed "$SEED" --evidence-part "$ROOT/evidence/parts/C03.l
 note $?
 
 # ---- 5. L2b (Miri)
-if [ "$tier" = thorough ]; then NSEED=${JBSIM_MIRI_SEEDS:-96}; SCEN="A B C E F D"; else NSEED=${JBSIM_MIRI_SEEDS:-8}; SCEN="F B"; fi
+if [ "$tier" = thorough ]; then NSEED=${JBSIM_MIRI_SEEDS:-96}; SCEN="A B C E F G D"; else NSEED=${JBSIM_MIRI_SEEDS:-8}; SCEN="F B"; fi
 BASE=$(( SEED % 4096 ))
 "$ROOT/miri_layer.sh" "$BASE" "$NSEED" "$SCEN" "$SEED" >logs/C03.$tier.l2b.out 2>logs/C03.$tier.l2b.err
 rc=$?
